@@ -740,8 +740,10 @@ def report(mod, prop, tier, seed, results, wall, verbose=False):
             exit_code=code,
         ),
     )
-    os.makedirs(os.path.join(VERIF, "evidence"), exist_ok=True)
-    with open(os.path.join(VERIF, "evidence", f"{prop}.json"), "w") as f:
+    # evidence is only ever written for /repo itself; runs against a scratch copy (FLODYM_SRC) go elsewhere
+    evdir = os.path.join(VERIF, "evidence") if REPO == "/repo" else os.path.join(VERIF, "evidence", ".scratch")
+    os.makedirs(evdir, exist_ok=True)
+    with open(os.path.join(evdir, f"{prop}.json"), "w") as f:
         json.dump(ev, f, indent=1, default=str)
     if os.environ.get("SVX_SLOW"):
         for r in sorted(results, key=lambda r: -r["wall"])[:8]:
